@@ -197,6 +197,9 @@ class LighthouseInitialEstimator:
 
             poses: dict[int, Pose] = {}
             ids = sorted(solutions.keys())
+            if len(ids) < 2:
+                # A sample seen by only one base station does not link anything, leave it out
+                continue
             first = ids[0]
             is_sample_valid = True
 
